@@ -76,9 +76,18 @@ def run_case(ci):
             if ((xr < lb) | (xr > ub)).any():
                 outside += 1
                 worst = xr.tolist()
+    # the step that was actually taken, per coordinate (first call): offsets of the evaluation points from x0
+    offs = []
+    for xe, _, _ in first:
+        d_ = np.ravel(xe) - x0
+        nzc = np.flatnonzero(d_ != 0)
+        if nzc.size == 1:
+            offs.append((int(nzc[0]), complex(d_[nzc[0]])))
+        elif nzc.size > 1:
+            offs.append((-1, 0j))
     complex_real_moved = any(np.iscomplexobj(xe) and not np.array_equal(np.real(np.ravel(xe)), x0) for xe, _, _ in first) if c['method'] == 'complex' else False
     return dict(layouts=layouts, r1=np.asarray(r1).tolist(), r2=np.asarray(r2).tolist(), shape=list(np.shape(r1)), tok=tok1 and tok2, outside=outside, worst=worst,
-                nevals=len(first), complex_real_moved=complex_real_moved)
+                nevals=len(first), complex_real_moved=complex_real_moved, offs=[(j, [z.real, z.imag]) for j, z in offs])
 
 
 VIEWS = dict(id=lambda x: x, rev=lambda x: x[::-1], head=lambda x: x[:2], every2=lambda x: x[::2])
@@ -146,6 +155,34 @@ def run(tier, rep):
             rep.violation('args-not-forwarded', dict(case=name), '%s: extra arguments did not reach f unchanged on every evaluation' % name)
         if o['outside']:
             rep.violation('outside-box:%s' % c['place'], dict(case=name, point=o['worst']), '%s: %d evaluation(s) left the box, e.g. %s' % (name, o['outside'], o['worst']))
+        if c['place'] == 'nobounds':
+            # NdScipy.StepOf (scipy's documented rule): a GIVEN step is relative to |x_j|: h_j = step * |x_j|; the default is
+            # h_j = r * max(1, |x_j|) with r = eps^(1/3) (central) or eps^(1/2) (forward, complex);
+            # forward: one point per coordinate, central: a symmetric pair, complex: one purely imaginary offset
+            given_ = {0: None, 1: 1e-4, 2: 1e-2}[c['rel']]
+            rel_ = given_ or (EPS ** (1.0 / 3) if c['method'] == 'central' else EPS ** 0.5)
+            x0_ = multi.X0[:c['n']]
+            per = {}
+            for j, z in o['offs']:
+                if complex(z[0], z[1]) not in per.setdefault(j, []):      # the same x may have been evaluated in several layouts
+                    per[j].append(complex(z[0], z[1]))
+            badstep = None
+            if -1 in per:
+                badstep = 'an evaluation moves several coordinates at once'
+            for j in range(c['n']):
+                want_h = rel_ * (abs(x0_[j]) if given_ else max(1.0, abs(x0_[j])))
+                zs = per.get(j, [])
+                mags = [abs(z) for z in zs]
+                if c['method'] == 'central':
+                    ok = len(zs) == 2 and abs(zs[0] + zs[1]) <= 1e-9 * want_h and all(abs(m_ - want_h) <= 1e-6 * want_h for m_ in mags)
+                elif c['method'] == 'forward':
+                    ok = len(zs) == 1 and abs(mags[0] - want_h) <= 1e-6 * want_h and zs[0].imag == 0
+                else:
+                    ok = len(zs) == 1 and abs(mags[0] - want_h) <= 1e-6 * want_h and zs[0].real == 0
+                if not ok and badstep is None:
+                    badstep = 'coordinate %d (x = %r): offsets %s, specification %s of size %.6g' % (j, x0_[j], zs, {'central': 'a symmetric pair', 'forward': 'one real offset', 'complex': 'one imaginary offset'}[c['method']], want_h)
+            if badstep:
+                rep.violation('step-taken:%s' % c['method'], dict(case=name, offsets=o['offs'][:12]), '%s: %s' % (name, badstep))
         if o['complex_real_moved']:
             rep.violation('complex-real-part', dict(case=name), '%s: the complex-step method moved the real part of x' % name)
         rec = MREC[(c['n'], c['m'], c['kind'])]
